@@ -46,11 +46,11 @@ def change_one(g: VGen, v: dict) -> Optional[Tuple[dict, str]]:
         k = n["k"]
         opts: List[str] = []
         if k == "scalar":
-            opts += ["coerce", "pred_param", "drop_pred", "add_pred", "proc", "ty", "coerce_fn", "apred"]
+            opts += ["coerce", "pred_param", "drop_pred", "add_pred", "proc", "ty", "coerce_fn", "apred", "swap_preds", "swap_procs"]
         elif k == "equals":
             opts += ["match_type", "match_val", "proc"]
         elif k in ("list", "set", "utuple", "map"):
-            opts += ["coerce", "drop_pred", "add_pred", "coerce_fn", "apred"]
+            opts += ["coerce", "drop_pred", "add_pred", "coerce_fn", "apred", "swap_preds", "swap_preds"]
         elif k == "ntuple":
             opts += ["coerce", "oc", "drop_field", "oc_fn"]
         elif k == "record":
@@ -65,12 +65,23 @@ def change_one(g: VGen, v: dict) -> Optional[Tuple[dict, str]]:
     r.shuffle(cands)
     # rare operators first half of the time, so that every constructor argument is varied often
     if r.random() < 0.5:
-        cands.sort(key=lambda c: 0 if c[2] in ("swap_keys", "swap", "coerce_fn", "apred", "req", "cls", "into", "match_type", "aoc", "oc_fn") else 1)
+        cands.sort(key=lambda c: 0 if c[2] in ("swap_keys", "swap", "coerce_fn", "apred", "req", "cls", "into", "match_type", "aoc", "oc_fn")
+                   or c[1]["k"] == "none" else 1)
     for path, n, o in cands:
         how = apply_change(g, n, o)
         if how:
             return v2, f"{n['k']}@{'/'.join(map(str, path))}: {how}"
     return None
+
+
+def _same_pred(a: dict, b: dict, is_async: bool) -> bool:
+    """do the two descriptions denote predicates that compare equal (Choices({1, 2}) == Choices({2, 1}))?"""
+    try:
+        ctx = wire.Ctx()
+        mk = build.mk_apred if is_async else build.mk_pred
+        return bool(mk(ctx, a) == mk(ctx, b))
+    except Exception:  # noqa
+        return True
 
 
 def apply_change(g: VGen, n: dict, o: str) -> Optional[str]:
@@ -90,6 +101,11 @@ def apply_change(g: VGen, n: dict, o: str) -> Optional[str]:
         if k == "scalar" and isinstance(n["ty"], str) and n["ty"] in ("int", "str") and cur is None:
             n["coerce"] = g.user_coercer(n["ty"])
             return "coerce None -> user coercer"
+        if k == "none":
+            # (also the `none_validator=` of an Optional: a fresh identity, so that the builder passes it explicitly)
+            n["vid"] = g.vid()
+            n["coerce"] = None if cur else {"cid": g.cb(), "compat": ["none", "str"], "fn": {"f": "ifTy", "ty": "str"}}
+            return "NoneValidator coercer " + ("removed" if cur else "added")
         return None
     if o == "coerce_fn":
         cur = n.get("coerce")
@@ -136,6 +152,20 @@ def apply_change(g: VGen, n: dict, o: str) -> Optional[str]:
             if p["k"] in ("Min", "Max"):
                 p["excl"] = not p["excl"]
                 return f"{p['k']} exclusive flag flipped"
+        return None
+    if o == "swap_preds":
+        # declaration order is observable: a value failing both is reported with the predicates in that order
+        for f in ("preds", "apreds"):
+            ps = n.get(f) or []
+            if len(ps) >= 2 and not _same_pred(ps[0], ps[1], f == "apreds"):
+                n[f] = [ps[1], ps[0]] + list(ps[2:])
+                return f"first two {f} swapped"
+        return None
+    if o == "swap_procs":
+        ps = n.get("pre") or []
+        if len(ps) >= 2 and ps[0]["k"] != ps[1]["k"]:
+            n["pre"] = [ps[1], ps[0]] + list(ps[2:])
+            return "first two preprocessors swapped"
         return None
     if o == "drop_pred" and n.get("preds"):
         n["preds"].pop(r.randrange(len(n["preds"])))
